@@ -531,6 +531,46 @@ def probe_signature(db, f):
                 kinds_.append("closed form (h+i*s)%T, i=1..")
             else:
                 probs.append("probe advance at line %s is neither h=(h+s)%%T nor (h+i*s)%%T with i=1,2,.." % w.get("l"))
+    # number of cells examined: (occupancy tests of the probe cell before the loop) + (loop trips) x (tests per round) must reach
+    # the table size, otherwise a key whose free cell is the last one of its probe sequence is reported "table full" / not found
+    probe_vars = {("local", start[0])} | {tgt for w, tgt, num, m, r in adv if tgt is not None}
+    def is_cell_test(n):
+        if n["k"] != "IfStmt" or n.get("cond") is None:
+            return False
+        for x in walk(n["cond"]):
+            if x["k"] == "ArraySubscriptExpr" and access_path(f, x["idx"]) in probe_vars:
+                return True
+            if x["k"] == "CXXMemberCallExpr" and callee_name(x) == "access" and x.get("args") and access_path(f, x["args"][0]) in probe_vars:
+                return True
+        return False
+    loops = [n for n in f.live_nodes() if n["k"] in ("ForStmt", "WhileStmt") and any(any(y is w for y in walk(n)) for w, *_ in adv)]
+    if len(loops) == 1:
+        lp = loops[0]
+        inside = [n for n in walk(lp["body"]) if is_cell_test(n)]
+        outside = [n for n in f.live_nodes() if is_cell_test(n) and not any(y is n for y in walk(lp))]
+        cond = strip(lp["cond"]) if lp.get("cond") is not None else None
+        trips = None
+        if cond is not None and cond["k"] == "BinaryOperator" and cond["op"] in ("<", "<="):
+            iv = access_path(f, cond["lhs"])
+            ini = None
+            if lp["k"] == "ForStmt" and lp.get("init") is not None and lp["init"]["k"] == "DeclStmt" and lp["init"]["decls"]:
+                d0 = lp["init"]["decls"][0]
+                if ("local", d0.get("d")) == iv:
+                    ini = const_value(d0.get("init"))
+            elif iv is not None and iv[0] == "local":
+                defs = [rhs for tg2, rhs, w2 in definitions(f) if tg2 == iv and not any(y is w2 for y in walk(lp))]
+                if len(defs) == 1:
+                    ini = const_value(defs[0])
+            bp = resolved_path(f, cond["rhs"])
+            if ini is not None and bp is not None and bp[-1] == "tsize":
+                trips = ("T", -ini + (1 if cond["op"] == "<=" else 0))       # tsize + k
+        if trips is not None and inside:
+            total_k = len(outside) + trips[1] * len(inside) if len(inside) == 1 else None
+            if total_k is not None and total_k < 0:
+                probs.append("the walk examines tsize%+d cells (%d before the loop, tsize%+d rounds): the last cell of a probe sequence is never "
+                             "looked at, so an insert into / a lookup in a nearly full table fails although the cell exists" % (
+                                 total_k, len(outside), trips[1]))
+            kinds_.append("cells examined: tsize%+d" % (total_k if total_k is not None else 0))
     return {"kinds": kinds_}, probs
 
 
